@@ -146,11 +146,11 @@ the `X-RedirectionIo-RuleIds` header. -/
 def renderHeaders (headers : List Rio.Header.Header) (filters : List HeaderFilter)
     (ids : Option (List RuleId)) : Json :=
   let fs : List Rio.Header.HeaderFilter := filters.map fun f => ⟨f.action, f.header, f.value⟩
-  let out := Rio.Header.filterHeaders String.toLower fs headers
-  let out := match ids with
+  let out : List Rio.Header.Header := Rio.Header.filterHeaders String.toLower fs headers
+  let out : List Rio.Header.Header := match ids with
     | none => out
     | some l => out ++ [⟨"X-RedirectionIo-RuleIds", String.intercalate ";" (l.map stringOfId)⟩]
-  Json.arr (out.map fun h => Json.arr #[toJson h.name, toJson h.value]).toArray
+  Json.arr (out.map fun (h : Rio.Header.Header) => Json.arr #[toJson h.name, toJson h.value]).toArray
 
 /-- Result of `create_filter_body` on a non-HTML response + the chain run on the probe body. -/
 def renderBody (filters : List BodyFilter) (body : String) : Json :=
